@@ -19,7 +19,7 @@ MIN_CAP = 6
 def gen_token(r, kinds=None):
     k = r.choice(kinds or ['valid', 'valid', 'valid', 'valid-small', 'valid-empty', 'valid-max', 'corrupt-payload', 'corrupt-crc',
                            'truncated', 'stray-d3', 'd3-run', 'd3-as-length', 'nested', 'd3-payload', 'reserved-bits', 'fe-message',
-                           'junk', 'false-sync-short', 'false-sync-long', 'zeros'])
+                           'junk', 'false-sync-short', 'false-sync-long', 'zeros', 'swallow-many', 'junk-then-d3'])
     if k == 'valid':
         n = r.choice([r.randint(0, 40), r.randint(0, 300), r.randint(0, 1023)])
         return k, cm.rtcm_frame(cm.rtcm_payload(r, n, r.choice([1005, 1074, 1077, 1230, 4095, 0, r.randrange(4096)])))
@@ -64,6 +64,13 @@ def gen_token(r, kinds=None):
         return k, cm.fe_message(bytes(r.getrandbits(8) for _ in range(r.randint(0, 40))), mtype=r.choice([10000, 10001, 12000]), seq=r.randrange(1 << 32))
     if k == 'junk':
         return k, bytes(r.getrandbits(8) for _ in range(r.randint(1, 30)))
+    if k == 'swallow-many':   # a 0xD3 whose bogus length spans several complete frames: all recovered by one Resync()
+        inner = b''.join(cm.rtcm_frame(cm.rtcm_payload(r, r.choice([0, 0, 2, 7, 19]), 1000 + j)) for j in range(r.randint(3, 6)))
+        n = len(inner) + r.randint(0, 6)
+        return k, bytes([0xD3, (n >> 8) & 3, n & 0xFF]) + inner + bytes(r.getrandbits(8) for _ in range(n - len(inner) + 3))
+    if k == 'junk-then-d3':    # >= 24 bytes without a preamble, then a stray 0xD3 (meant to end a chunk)
+        j = bytes(b for b in (r.getrandbits(8) for _ in range(40)) if b != 0xD3)[:r.randint(24, 36)]
+        return k, j + r.choice([b'\xd3', b'\xd3\x00', b'\xd3\xd3', b'\xd3\x03'])
     if k == 'false-sync-short':
         return k, b'\xd3' + bytes([r.randrange(4) & 0, r.randint(0, 20)]) + bytes(r.getrandbits(8) for _ in range(r.randint(0, 30)))
     if k == 'false-sync-long':
@@ -84,23 +91,23 @@ def gen_case(r, thorough):
            'mid': r.randint(40, 400), 'max': r.choice([1029, 1028, 1030, 1032, 2048]), 'huge': len(s) + r.randint(1, 64)}[capc]
     mode = r.choice(['U', 'U', 'M'])
     align = r.randrange(4) if mode == 'U' else 0
-    ch = r.choice(['single', 'bytewise', 'split', 'random', 'random'])
+    ch = r.choice(['single', 'bytewise', 'split', 'random', 'random', 'token-ends'])
     if ch == 'single':
         cuts = []
     elif ch == 'bytewise':
         cuts = list(range(1, len(s)))
     elif ch == 'split':
         cuts = [r.randrange(0, len(s) + 1)]
+    elif ch == 'token-ends':
+        cuts = cm.token_cuts(tokens, r)
     else:
         cuts = cm.cuts_of(cm.chunk_random(s, r))
     nchunks = len(cuts) + 1
     resets = [r.randrange(nchunks) for _ in range(r.choice([0, 0, 0, 1, 2]))]
-    setbufs = []
-    if r.random() < 0.08:
-        m2 = r.choice(['U', 'M'])
-        setbufs.append((r.randrange(nchunks), (m2, r.choice([0, 5, 6, 9, 64, 1029, 1100]), r.randrange(4) if m2 == 'U' else 0)))
+    setbufs = cm.gen_setbufs(r, nchunks, mode, cap, align, [6, 7, 9, 12, 64, 300, 1029, 1100, max(sizes), max(sizes) + 3], MIN_CAP) if r.random() < 0.25 else []
+    opts = r.choice([0, 1]) | (4 if r.random() < 0.03 else 0)
     return {'mode': mode, 'cap': cap, 'align': align, 'tokens': tokens, 'kinds': kinds, 'cuts': cuts, 'resets': resets,
-            'setbufs': setbufs, 'chunking': ch, 'capclass': capc}
+            'setbufs': setbufs, 'chunking': ch, 'capclass': capc, 'opts': opts}
 
 
 def systematic_cases(r, thorough):
@@ -123,6 +130,47 @@ def systematic_cases(r, thorough):
         for cap in (16, 1029):
             out.append({'mode': 'U', 'cap': cap, 'align': k % 4, 'tokens': s, 'kinds': ['d3-run', 'valid', 'nested', 'valid'], 'cuts': [k],
                         'resets': [], 'setbufs': [], 'chunking': 'split', 'capclass': 'small'})
+    def mk(mode, cap, align, tokens, kinds, cuts=(), capclass='exact', **kw):
+        d = {'mode': mode, 'cap': cap, 'align': align, 'tokens': list(tokens), 'kinds': list(kinds), 'cuts': list(cuts), 'resets': [], 'setbufs': [],
+             'chunking': 'single' if not cuts else 'split', 'capclass': capclass}
+        d.update(kw)
+        return d
+    # a frame LARGER than / exactly as large as the usable capacity, whole and split at every offset, followed by one that fits
+    big = cm.rtcm_frame(cm.rtcm_payload(r, 14, 1077)); small = cm.rtcm_frame(b'\x3e\xd0')
+    for al in (0, 1, 3):
+        for dc in (-1, 0):
+            cap = len(big) + dc + (4 - al) % 4
+            for k in range(0, len(big) + len(small) + 1):
+                out.append(mk('U', cap, al, [big, small], ['valid', 'valid-small'], cuts=[k] if k else []))
+    # the empty frame as the last bytes of a call and of the stream, every split
+    e = cm.rtcm_frame(b'')
+    for pre in (b'', small, b'\x01\x02\xd3'):
+        st = [pre, e] if pre else [e]
+        n = sum(len(x) for x in st)
+        for k in range(0, n + 1):
+            out.append(mk('M', 6, 0, st, ['junk', 'valid-empty'], cuts=[k] if 0 < k < n else [], capclass='tiny'))
+            out.append(mk('U', 16, k % 4, st + [e], ['junk', 'valid-empty', 'valid-empty'], cuts=[k, n], capclass='small'))
+    # >= 24 junk bytes, then a stray 0xD3 as the last / second-to-last byte of a call, then a real frame
+    junk = bytes(x for x in (r.getrandbits(8) for _ in range(60)) if x != 0xD3)[:26]
+    for stray in (b'\xd3', b'\xd3\x00', b'\xd3\xd3', b'\xd3\x03'):
+        st = [junk, stray, a]
+        n0 = len(junk) + len(stray)
+        for k in (n0 - 2, n0 - 1, n0, n0 + 1):
+            for capx in (1029, 12, 700):
+                out.append(mk('U', capx, 0, st, ['junk', 'stray-d3', 'valid'], cuts=[k], capclass='small'))
+    # one 0xD3 whose bogus length swallows 4 complete frames: all must come out of ONE Resync pass, any split
+    four = b''.join(cm.rtcm_frame(cm.rtcm_payload(r, j, 1000 + j)) for j in (0, 3, 0, 9))
+    sw = bytes([0xD3, 0, len(four) + 2]) + four + b'\x00' * 5
+    for k in (range(0, len(sw) + 2) if thorough else range(0, len(sw) + 2, 3)):
+        out.append(mk('U', 256, 2, [sw, small], ['swallow-many', 'valid-small'], cuts=[k] if k else [], capclass='mid'))
+    # each reserved bit of the length bytes set on its own
+    for bit in range(6):
+        f = cm.rtcm_frame(cm.rtcm_payload(r, 5, 1005), reserved=1 << bit)
+        out.append(mk('U', 1029, bit % 4, [b'\xd3', f, f], ['stray-d3', 'reserved-bits', 'reserved-bits'], cuts=[4]))
+    # large capacities with maximum-size frames back to back
+    mx = cm.rtcm_frame(cm.rtcm_payload(r, 1023, 1077))
+    for capx in (70000, 65536, 1029, 1028):
+        out.append(mk('U', capx, 1, [mx, b'\xd3', mx, small], ['valid-max', 'stray-d3', 'valid-max', 'valid-small'], cuts=[500, 1029, 1031], capclass='max'))
     # clamp test: the framer is told 2^31 + 5 / 2^33 bytes, the block is only as large as needed
     for claimed in (2 ** 31 + 5, 2 ** 33):
         out.append({'mode': 'U', 'cap': '%d/%d' % (claimed, tot + 8), 'align': 1, 'tokens': s, 'kinds': ['clamp'], 'cuts': [7], 'resets': [],
@@ -131,8 +179,13 @@ def systematic_cases(r, thorough):
 
 
 def lines_of(case):
+    """(implementation line, SPEC line); model_line(case) is the implementation line without harness-only options"""
     ops = cm.case_ops(case)
-    return cm.make_line(case['mode'], case['cap'], case['align'], ops), cm.spec_line(case['mode'], case['cap'], case['align'], ops)
+    return cm.make_line(case['mode'], case['cap'], case['align'], ops, opts=case.get('opts', 0)), cm.spec_line(case['mode'], case['cap'], case['align'], ops)
+
+
+def model_line(case):
+    return cm.make_line(case['mode'], case['cap'], case['align'], cm.case_ops(case), for_model=True)
 
 
 def run_impl(exe, lines):
@@ -157,7 +210,7 @@ def evaluate(ctx, cases, model, impl, report=True):
     il, sl = zip(*[lines_of(c) for c in cases]) if cases else ((), ())
     io = run_impl(impl, list(il))
     so = vf.run_parallel(model, list(sl))
-    mlines = [l for l, c in zip(il, cases) if not c.get('no_model')]
+    mlines = [model_line(c) for c in cases if not c.get('no_model')]
     mres = iter(vf.run_parallel(model, mlines))
     results = []
     for c, i, s, l in zip(cases, io, so, il):
@@ -181,6 +234,13 @@ def check_results(ctx, results, model, impl):
             ctx.violation(sig_of(c, 'crash'), 'harness process died: ' + i, {'line': line, 'impl': i})
             continue
         isegs, ssegs = cm.parse_out(i), cm.parse_out(s)
+        ctx.count('options:%d' % c.get('opts', 0))
+        if c.get('opts', 0) & 4:
+            # the callback calls Reset() re-entrantly: behaviour is not specified by the property, memory safety is
+            bad = [k for k, a in enumerate(isegs) if a.get('flag') in ('ASAN', 'INMOD')]
+            if bad:
+                ctx.violation(sig_of(c, 'sanitizer-report-with-reentrant-reset'), 'sanitizer report when the callback calls Reset()', {'line': line, 'impl': i})
+            continue
         ncb = sum(len(x.get('cbs', [])) for x in ssegs)
         ctx.count('frames-dispatched', ncb)
         if ncb == 0:
@@ -198,7 +258,7 @@ def check_results(ctx, results, model, impl):
             sc = cm.shrink(c, fails) if len(ctx.violations) < 3 else c
             a, b = lines_of(sc)
             o = vf.run_lines(impl, [a], env=ASAN_ENV)[1]; o2 = vf.run_lines(model, [b])[1]
-            om = vf.run_lines(model, [a])[1] if not sc.get('no_model') else ['-']
+            om = vf.run_lines(model, [model_line(sc)])[1] if not sc.get('no_model') else ['-']
             ctx.violation(sig_of(c, d[1]), 'RTCM framer vs left-to-right scan: %s at operation %d (capacity %s, %s buffer, alignment %d)' % (d[1], d[0], c['cap'], c['mode'], c['align']),
                           {'line': a, 'spec_line': b, 'stream_hex': b''.join(sc['tokens']).hex(), 'impl': o[0] if o else None, 'spec': o2[0] if o2 else None, 'model': om[0] if om else None})
             continue
@@ -255,7 +315,7 @@ def run(ctx):
             c['tokens'] = [bytes.fromhex(t) for t in c['tokens']]
             cases.append(c)
     cases += systematic_cases(r, ctx.thorough)
-    n = 150000 if ctx.thorough else 20000
+    n = 150000 if ctx.thorough else 15000
     cases += [gen_case(r, ctx.thorough) for _ in range(n)]
     # CRC agreement: extracted table-driven CRC24Hash model = extracted bit-serial CRC-24Q = Python bit-serial
     crcs = [bytes(r.getrandbits(8) for _ in range(r.randint(0, 64))) for _ in range(300)]
@@ -273,7 +333,7 @@ def run(ctx):
                             'nested frames, reserved bits, FusionEngine messages, junk, false syncs) x chunkings (single, bytewise, single split, random incl. empty chunks) '
                             'x capacities (0..9, frame size -1/0/+1/+2/+3, 6..40, 40..400, 1028..2048, > stream, told 2^31+5 / 2^33) x user(4 alignments)/managed buffers '
                             'x Reset() and SetBuffer() at random chunk boundaries; systematic part: %s payload lengths x capacity size-1/size/size+1, all single splits of a 4-token stream. '
-                            'A case is distinct by its full input line.' % ('all 1024' if ctx.thorough else '31'))
+                            'Added after the seeded-change audit: SetBuffer() between chunks on the same memory / smaller / larger / user<->managed / refused with parser state carried over (25 %% of histories, 1-3 calls), chunk boundaries at and +-1/+-2 around token ends, candidates swallowing 3-6 complete messages, >= 24 junk bytes then a stray preamble ending a call, messages larger than / equal to the capacity split at every offset, empty messages ending a call / the stream, every payload_size in 0xFFFFFFE0..0xFFFFFFFF (C07), messages and capacities > 64 KiB and 16384/16383 (implementation vs SPEC), WarnOnError on/off and std::function vs raw callback as case dimensions, callbacks that call Reset() re-entrantly (memory safety only), caller chunks at 4 start alignments ending exactly at the end of an exact-size heap block and compared bit-for-bit after the call, framer buffers pre-filled with sync-byte sentinels, callback pointers required to lie inside a buffer handed to the framer with payload == header + 24. A case is distinct by its full input line.' % ('all 1024' if ctx.thorough else '31'))
     ctx.coverage['exhaustive'] = False
     ctx.trusted_base += ['Coq 8.16.1 kernel + vm_compute', 'extraction (ExtrOcamlBasic only), ocaml/conv.ml + c14_driver.ml',
                          'translators/gen_c14.py (constants and CRC table derived from the behaviour of the compiled framer / compiler-evaluated table, harness/cpp/c14_probe.cc)',
@@ -289,7 +349,8 @@ def replay(ctx, rec):
     model, impl = build(ctx)
     line = case['line']
     print('IMPL ', vf.run_lines(impl, [line], env=ASAN_ENV)[1])
+    ml = ' '.join(('BU' + t[2:]) if t.startswith('BS') else t for t in line.split() if not t.startswith('O'))
     if '/' not in line.split()[1]:
-        print('MODEL', vf.run_lines(model, [line])[1])
-    print('SPEC ', vf.run_lines(model, [case.get('spec_line') or 'SPEC ' + line])[1])
+        print('MODEL', vf.run_lines(model, [ml])[1])
+    print('SPEC ', vf.run_lines(model, [case.get('spec_line') or 'SPEC ' + ml])[1])
     return 0
